@@ -81,6 +81,20 @@ fn main() {
     }
     let code = match args[1].as_str() {
         "selftest" => props::selftest::run(),
+        "modelsize" => {
+            // sizes of the reference-model graphs under various bounds (no library calls)
+            for (n, d, ms) in [(2usize, 12usize, 200000usize), (3, 4, 200000), (3, 5, 200000)] {
+                let t = std::time::Instant::now();
+                let g = props::c03::bfs(n, d, 2, 4, true, ms);
+                println!("C03 nchan={} depth<={}: states={} transitions={} depth={} closed={} ({:.1}s)", n, d, g.states, g.paths.len(), g.depth_reached, g.closed, t.elapsed().as_secs_f64());
+            }
+            for (mc, d, ms) in [(2usize, 5usize, 200000usize), (2, 6, 200000), (2, 7, 200000), (3, 6, 200000)] {
+                let t = std::time::Instant::now();
+                let g = props::c19::bfs(mc, d, ms);
+                println!("C19 max_chans={} depth<={}: states={} transitions={} depth={} closed={} ({:.1}s)", mc, d, g.states, g.paths.len(), g.depth, g.closed, t.elapsed().as_secs_f64());
+            }
+            0
+        },
         "replay" => {
             if rest.is_empty() {
                 usage();
